@@ -120,3 +120,74 @@ fn c03_trust_default() {
     o.insert(probe);
     assert!(d.contains(&o) == (probe == 0 || probe == AUTHORIZER), "default trust is not {authority, authorizer}");
 }
+
+/// C04-K1b: block-level scopes are the defaults of the block's rules and checks: a rule without
+/// its own scope sees what the block trusts; a rule with a scope replaces it (plus own block and
+/// authorizer), it does not add to it.
+fn spec_of(scopes: &[Scope], cur: usize, b0: usize, b1: usize) -> u64 {
+    let mut spec: u64 = 0;
+    let mut i = 0;
+    while i < scopes.len() {
+        match &scopes[i] {
+            Scope::Authority => spec |= bit(0),
+            Scope::Previous => {
+                if cur != AUTHORIZER {
+                    let mut j = 0;
+                    while j <= cur {
+                        spec |= bit(j);
+                        j += 1;
+                    }
+                }
+            }
+            Scope::PublicKey(k) => {
+                if *k == 0 {
+                    spec |= bit(b0);
+                } else if *k == 1 {
+                    spec |= bit(b1);
+                }
+            }
+        }
+        i += 1;
+    }
+    spec
+}
+fn inherit(n_block: usize, n_rule: usize) {
+    let (b0, b1) = (any_block(), any_block());
+    kani::assume(b0 >= 1 && b1 >= 1);
+    let mut pk: HashMap<usize, Vec<usize>> = HashMap::new();
+    pk.insert(0, vec![b0]);
+    pk.insert(1, vec![b1]);
+    let cur: usize = if kani::any() { AUTHORIZER } else { any_block() };
+    let block_scopes_arr: [Scope; 2] = [any_scope(), any_scope()];
+    let rule_scopes_arr: [Scope; 2] = [any_scope(), any_scope()];
+    let block_scopes = &block_scopes_arr[..n_block];
+    let rule_scopes = &rule_scopes_arr[..n_rule];
+    let block_set = TrustedOrigins::from_scopes(block_scopes, &TrustedOrigins::default(), cur, &pk);
+    let rule_set = TrustedOrigins::from_scopes(rule_scopes, &block_set, cur, &pk);
+    let always = bit(cur) | bit(AUTHORIZER);
+    let block_spec = if n_block == 0 { bit(0) | always } else { spec_of(block_scopes, cur, b0, b1) | always };
+    let rule_spec = if n_rule == 0 { block_spec } else { spec_of(rule_scopes, cur, b0, b1) | always };
+    let probe: usize = if kani::any() { AUTHORIZER } else { any_block() };
+    let mut o = Origin::default();
+    o.insert(probe);
+    let trusted = rule_set.contains(&o);
+    std::mem::forget(pk);
+    kani::cover!(trusted, "witness: some origin is trusted");
+    kani::cover!(!trusted, "witness: some origin is not trusted");
+    assert!(trusted == (rule_spec & bit(probe) != 0), "rule / check scope does not combine with the block scope as specified");
+}
+macro_rules! inh {
+    ($name:ident, $nb:expr, $nr:expr) => {
+        #[kani::proof]
+        #[kani::unwind(9)]
+        fn $name() {
+            inherit($nb, $nr);
+        }
+    };
+}
+inh!(c04_scope_block0_rule0, 0, 0);
+inh!(c04_scope_block1_rule0, 1, 0);
+inh!(c04_scope_block2_rule0, 2, 0);
+inh!(c04_scope_block1_rule1, 1, 1);
+inh!(c04_scope_block2_rule2, 2, 2);
+inh!(c04_scope_block0_rule2, 0, 2);
